@@ -40,9 +40,9 @@ def get(mode, rfc, payload="g11.20000", end="c", main=150, path=b"SECRETPATH03.b
         g.append(R(b"%d no" % main))
     return "get:%s:ok:-@" % H(path) + "/".join(g)
 
-def put(mode, rfc, payload="g12.9000", path=b"SECRETPATH04.bin", verb="STOR"):
+def put(mode, rfc, payload="g12.9000", path=b"SECRETPATH04.bin", verb="STOR", chop=None):
     g = [setup(mode, rfc), ",".join([R(b"150 go"), R(b"226 done"), "Drecv:-:c"])]
-    return "put:%s:%s:%s@" % (verb, H(path), payload) + "/".join(g)
+    return "put:%s:%s:%s%s@" % (verb, H(path), payload, "" if chop is None else ":-:" + chop) + "/".join(g)
 
 def lst(mode, rfc, end="c"):
     g = [setup(mode, rfc), ",".join([R(b"150 go"), R(b"226 done"), "Dsend:h%s::%s" % (b"a.txt\r\nb.txt\r\n".hex(), end)])]
